@@ -228,6 +228,8 @@ SPECIAL = [
     # more than nine ring closures open at the same time (%nn numbers), spiro chains (numbers released and reused)
     'C1C2C3C4C5C6C7C8C9C%10C%11C%12OC%12C%11C%10C9C8C7C6C5C4C3C2C1', 'C1CC11CC11CC11CC1', 'C1CC12CCC21CC1',
     'C1CC1C1CC1C1CC1', 'C12(CC1)CC2',
+    # fully equivalent atoms with alternating bonds: ties of the children key are broken by the order of the bond to the parent
+    'C1=CC=C1', 'C1=CC=CC=CC=C1', 'C1=CC=CC=CC=CC=CC=C1', 'N1=CN=CN=C1', 'C1#CC#CC#C1', 'C=C(C)C=C(C)C',
     # brackets: isotopes, charges, radicals, H counts, elemental / special atoms
     '[13CH4]', '[2H]O[2H]', '[H][H]', '[H+]', '[NH4+]', '[O-]C(=O)c1ccccc1', 'C[N+](C)(C)C', '[Fe+2]', '[Fe+3].[Cl-].[Cl-].[Cl-]',
     '[O-2].[Mg+2]', '[C-]#[O+]', '[CH3]', '[CH2]C', 'C[CH]C', '[O]O', '[OH]', 'C[N]C', '[C]', '[P]', '[S]', '[B]', '[PH3]', 'P',
@@ -620,7 +622,7 @@ def corr_reader(ck, texts):
 
 
 SPECIAL_SET = set(SPECIAL)
-CLOSURE_HEAVY = {'C1C2C3C4C5C6C7C8C9C%10C%11C%12OC%12C%11C%10C9C8C7C6C5C4C3C2C1', 'C12C3C4C1C5C2C3C45', 'C1CC11CC11CC11CC1', 'C1CC12CCC21CC1'}
+CLOSURE_HEAVY = {'C1=CC=C1', 'C1=CC=CC=CC=C1', 'N1=CN=CN=C1', 'C1C2C3C4C5C6C7C8C9C%10C%11C%12OC%12C%11C%10C9C8C7C6C5C4C3C2C1', 'C12C3C4C1C5C2C3C45', 'C1CC11CC11CC11CC1', 'C1CC12CCC21CC1'}
 
 # ---------------------------------------------------------------------------------------------------------
 # search: property-level oracles on the real code (no model involved)
